@@ -14,6 +14,9 @@ WS = {
 }
 NFLAGS = 26
 SPECIAL = [2, 3, 10, 11, 12]
+# the gate list of IsSpecialCheck after the repair (Config.gate_types_fixed); 26 and 27 have no client switch
+GATE = [2, 3, 10, 11, 12, 9, 22, 23, 24, 25, 26, 27]
+GATE_CLIENT = [t for t in GATE if t < 26]
 
 
 def hx(s):
@@ -67,11 +70,16 @@ def rand_flags(rng):
         f = list(ALL_ON); f[rng.randrange(NFLAGS)] = False
     elif m < 0.35:                                   # single switch on (plus master)
         f = [False] * NFLAGS; f[0] = True; f[rng.randrange(1, NFLAGS)] = True
-    elif m < 0.55:                                   # the gate boundary: the five off/on in all combinations
+    elif m < 0.45:                                   # the old gate boundary: the five off/on in all combinations
         f = [rng.random() < 0.8 for _ in range(NFLAGS)]; f[0] = True
         keep = rng.randrange(32)
         for b, t in enumerate(SPECIAL):
             f[t] = bool(keep >> b & 1) and rng.random() < 0.5
+    elif m < 0.55:                                   # the gate boundary: few (or none) of the gate types on
+        f = [rng.random() < 0.8 for _ in range(NFLAGS)]; f[0] = True
+        on = rng.sample(GATE_CLIENT, rng.choice([0, 1, 1, 1, 2, 3]))
+        for t in GATE_CLIENT:
+            f[t] = t in on
     else:
         p = rng.choice([0.2, 0.5, 0.8])
         f = [rng.random() < p for _ in range(NFLAGS)]
@@ -137,9 +145,15 @@ def rand_types(rng):
 def rand_json(rng, ws, bad=0.04):
     show = rng.choice([1, 1, 1, 1, 1, 1, 0, 2])
     ign = rand_types(rng)
-    if rng.random() < 0.15:
-        ign = sorted(set(ign) | set(SPECIAL))        # gate closed
     op = rng.choice([[], [], list(range(22, 30)), rng.sample(range(22, 30), 3), [23, 26, 28]])
+    g = rng.random()
+    if g < 0.10:
+        ign = sorted(set(ign) | set(SPECIAL))        # the old gate closed
+    elif g < 0.22:                                   # the gate boundary: few (or none) of the gate types on
+        on = rng.sample(GATE, rng.choice([0, 1, 1, 1, 2]))
+        ign = sorted((set(ign) | set(GATE)) - set(on))
+        if rng.random() < 0.7:
+            op = list(range(22, 30))
     ih = rand_patterns(rng, ws, True, 0.3)
     ie = rand_patterns(rng, ws, rng.random() < bad, 0.4)
     ft = []
@@ -151,10 +165,16 @@ def rand_json(rng, ws, bad=0.04):
     return jsoncfg(show, ign, op, ih, ie, ft)
 
 
+# the model variant in use (ocaml leg c17.variant: regexp gate coupled dead dup), set by main() before the legs run
+VARIANT = "11111"
+
+
 def to_json_of(flags, ih, ie):
-    """the same intent as a client configuration, written as luahelper.json (Config.to_json)"""
+    """the same intent as a client configuration, written as luahelper.json (Config.to_json of the variant in use:
+    once the client switches reach the white list, OpenErrorTypes lists the types whose switch is on)"""
     ign = [t for t in range(1, 30) if t > NFLAGS - 1 or not flags[t]]
-    return jsoncfg(1 if flags[0] else 0, ign, [], ih, ie, [])
+    op = [t for t in range(1, NFLAGS) if flags[t]] if VARIANT[3] == "1" else []
+    return jsoncfg(1 if flags[0] else 0, ign, op, ih, ie, [])
 
 
 def gen_filter(rng, tier):
@@ -176,8 +196,14 @@ def gen_filter(rng, tier):
                     out.append(case(ws, rand_root(rng, 0), to_json_of(f, [], []), client(ALL_ON), []))
             out.append(case(ws, rand_root(rng, 0), None, client(ALL_ON), []))
             out.append(case(ws, rand_root(rng, 0), None, client(flags_off(*SPECIAL)), []))
+            for t in GATE:                           # exactly one gate type on (a type dropped from the gate shows here)
+                if t in GATE_CLIENT:
+                    out.append(case(ws, rand_root(rng, 0), None, client(flags_off(*[x for x in GATE_CLIENT if x != t])), []))
+                else:
+                    out.append(case(ws, rand_root(rng, 0), jsoncfg(1, [x for x in GATE if x != t], list(range(22, 30))),
+                                    client(ALL_ON), []))
             out.append(case(ws, rand_root(rng, 0), jsoncfg(1, [], list(range(22, 30))), client(ALL_ON), []))
-    while len(out) < n + (2 * (NFLAGS + 3) if tier != "search" else 0):
+    while len(out) < n + (2 * (NFLAGS + 3 + len(GATE)) if tier != "search" else 0):
         ws = rng.choice(wss)
         root = rand_root(rng)
         m = rng.random()
@@ -307,8 +333,8 @@ def distribution(rows, rawcache):
 LEG = Leg("c17.filter", gen_filter, nontrivial=nontrivial, shrink=shrink_case, per_case_s=3.0, describe=describe)
 LEGS = [LEG]
 
-# The model variant (regexp.MustCompile crash vs. repaired regexp.Compile) follows the code through the translator
-# (GenFlags.must_compile_user_text -> Tie.fixed_regexp_now); C17_FIXED=0/1 in the environment overrides it.
+# The model variant (one boolean per fix: commit) follows the code through the translator (coq/Generated/GenFlags.v ->
+# Tie.fixes_now); C17_FIXED in the environment overrides it (see ocaml/c17_run.ml).
 MODEL_ENV = {"C17_FIXED": os.environ["C17_FIXED"]} if "C17_FIXED" in os.environ else {}
 
 
@@ -380,9 +406,9 @@ class C17Runner(vlib.Runner):
 TRUSTED = vlib.TRUSTED_COMMON + [
     "oracle: Go regexp (Section variables re_ok / re_match; every theorem holds for any regexp engine); the leg c17.re calls package regexp directly",
     "oracle: raw = diagnostics of the everything-enabled run over the analysed files (Section variable; leg c17.raw runs the real server with luahelper.json {IgnoreErrorTypes:[], OpenErrorTypes:[22..29]}, the files not analysed excluded by their literal names)",
-    "hand table validated by correspondence only: produced_in / cross_types (which pass emits which type), global_prereq (17 behind 4, 24 behind 10), open_required (22..28), the type-11 reference table of the test workspaces (harness/c17_ws.go c17Refs)",
+    "hand table validated by correspondence only: produced_in / cross_types (which pass emits which type); for the variants before the repairs also global_prereq (17 behind 4, 24 behind 10) and the type-11 reference table of the test workspaces (harness/c17_ws.go c17Refs)",
     "modelled, tied by correspondence: handleNotJSONCheckFlag, HandleChangeCheckList, ReadConfig (json branch), ChangeConfiguration (first notification swallowed), IsIgnoreErrorFile, isIgnoreFloder/isIgnoreFile + directory walk, IsSpecialCheck + HandleCheck gate",
-    "tied by translator (coq/Generated/GenFlags.v, GenErrTypes.v -> Tie/TieConfig.v): order of getCheckFlagList / getWarnCheckList, json tags of InitializationOptions / WarnParams, errTypeList of IsSpecialCheck, error type constants",
+    "tied by translator (coq/Generated/GenFlags.v, GenErrTypes.v -> Tie/TieConfig.v): order of getCheckFlagList / getWarnCheckList, json tags of InitializationOptions / WarnParams, errTypeList of IsSpecialCheck (covers every cross-file type), error type constants, open_required (= the types looked up in OpenErrorTypeMap by check/analysis), the table of every IsGlobalIgnoreErrType / IsIgnoreErrorFile use inside check/analysis (repaired shape), the OpenErrorTypeMap write of handleNotJSONCheckFlag, the IgnoreFileErrTypesMap read of ReadConfig; Properties/C17.v C17_code_is_deployed_variant: fixes_now = deployed",
 ]
 ASSUMPTIONS = [
     "types 24, 25, 27 are never triggered by the test workspaces (the model's rules for them are read from the code, not exercised)",
@@ -399,6 +425,11 @@ def main(tier, seed):
     can_run = r.can_run()
     extra = {}
     if can_run:
+        global VARIANT
+        v = run_worker([r.model_exe, "c17.variant"], ["-"], 0.05, env=dict(os.environ, **MODEL_ENV))
+        if v and len(v[0]) == 5 and set(v[0]) <= {"0", "1"}:
+            VARIANT = v[0]
+        extra["model_variant"] = {"regexp gate coupled dead dup": VARIANT}
         os.makedirs("/tmp/lhc17", exist_ok=True)
         r.replay_findings({l.name: l for l in LEGS})
         for leg in LEGS:
